@@ -65,6 +65,11 @@ claim("C18", "model_checking",
       "With the committee variance an integer multiple n of the reference, tanh- and exp-updates are the rationals 2/(3^n+1) and 2^-n; Adaptive.tla states range, max at zero, midpoint at the reference, approach to min, monotonicity and history-independence (bounds re-assigned and variance changed between updates) as integer inequalities that TLC checks over every action sequence up to the bound; the curve and every sequence are replayed through update_delta()/step() with committee arrays constructed to give exactly n x reference (both schemes, scalar and per-coordinate), compared at 1e-12; random per-coordinate variances over 12 decades check range/monotonicity off the lattice.",
       "Trusted: TLC, construction of committee arrays with a prescribed variation coefficient. Bound: n <= 18 (tanh) / 30 (exp) because 3^n, 2^n must fit TLC's 32-bit integers; histories up to 3 (quick) / 4 (thorough) actions.", "5 C18")
 
+claim("C09", "model_checking",
+      "TLC exhaustive on the slot-by-slot scheduling process (Sched.tla) + set-equality replay of small tables + TLC validation of recorded run/srun/irun traces (Sched_Trace.tla) + exact-probability frequency test",
+      "Sched.tla models AddMove (refusal rule) and the emission of forced and free slots; TLC checks that every emitted sequence satisfies the contract (count, due-ness, minimum counts, weight-zero never free) over all small tables. For every small table TLC exports the complete allowed set and the code's emitted set over thousands of draws must equal it (nothing forbidden, nothing lost). Names emitted by real run/srun/irun executions of random larger tables and every add_move outcome (default- and explicit-criteria paths) are judged record by record by TLC. Slot frequencies are compared with the exact probabilities at |z| <= 6.",
+      "Trusted: TLC, Json module. 'Independently, proportional to weight' is a distributional clause: decided statistically (6 sigma), not by TLC. Bounds: exhaustive part <= 2 moves (3 thorough), cycles <= 3 (4); traces <= 5 moves, 12 cycles.", "5 C09")
+
 NOT_YET = "check not built yet in this round (planned in DESIGN.md section 5); will be claimed once its spec and conformance harness exist"
 
 
